@@ -78,7 +78,16 @@ def work(args):
     out = []
     for rows in sysl:
         n = len(rows[0]) - 1
-        as_float = R.random() < 0.3
+        # float entries only where float elimination is EXACT: every non-zero entry is ± a power of two, so every pivot quotient and
+        # every product / sum stays a dyadic rational of small size (otherwise rounding residuals such as 1/3 - 5/3/5 != 0 create
+        # spurious pivots: the property's domain is exact rational arithmetic)
+        def pow2(x):
+            x = abs(F(x))
+            return x == 0 or (x.numerator & (x.numerator - 1) == 0 and x.denominator & (x.denominator - 1) == 0)
+        # … and with three rows the SECOND pivot must be a power of two as well: entries in {0, ±1} keep every intermediate value in
+        # {-2..2} and halves
+        exact_float = all(pow2(x) for r in rows for x in r) and (len(rows) <= 2 or all(abs(F(x)) <= 1 and F(x).denominator == 1 for r in rows for x in r))
+        as_float = R.random() < 0.3 and exact_float
         inp = [[(float(x) if as_float else x) for x in r] for r in rows]
         try:
             arg = copy.deepcopy(inp)
